@@ -239,4 +239,8 @@ LabelRule == (pc = "done" /\ out.kind = "PepXmlRows") =>
 \* behaviour generation: one case per initial state
 EmitCase == IsInit => PrintT(<<"CASE", doc>>)
 GenOnly == IsInit
+\* ---- liveness (checked by PepXml_live.cfg): under weak fairness of the next-state action every behaviour comes to rest
+\* in a state without successor -- the modelled procedure terminates for every input, schedule and fault inside the bounds
+FairSpec == Spec /\ WF_vars(Next)
+Halts == <>[](~ENABLED Next)
 =============================================================================
